@@ -340,7 +340,7 @@ func genBundle(g *Gen, o BundleOpts) *Bundle {
 				b.bodyParams = append(b.bodyParams, nm)
 			}
 		} else {
-			params[nm] = M{"name": "limit", "in": "query", "type": "integer"}
+			params[nm] = b.simpleParam("limit")
 		}
 	}
 	for i, n := 0, g.n(3); i < n; i++ {
@@ -351,6 +351,9 @@ func genBundle(g *Gen, o BundleOpts) *Bundle {
 			if _, isRef := r["schema"].(M)["$ref"]; !isRef {
 				b.schemaResps = append(b.schemaResps, nm)
 			}
+		}
+		if g.p(0.4) {
+			r["headers"] = b.simpleHeaders()
 		}
 		resps[nm] = r
 	}
@@ -392,7 +395,7 @@ func genBundle(g *Gen, o BundleOpts) *Bundle {
 				}
 			}
 			if g.p(0.3) {
-				ps = append(ps, M{"name": "q", "in": "query", "type": "string"})
+				ps = append(ps, b.simpleParam("q"))
 			}
 			if ps != nil {
 				op["parameters"] = ps
@@ -412,6 +415,9 @@ func genBundle(g *Gen, o BundleOpts) *Bundle {
 					r := M{"description": "r"}
 					if g.p(0.75) {
 						r["schema"] = b.bschema("", 2, 0.35)
+					}
+					if g.p(0.2) {
+						r["headers"] = b.simpleHeaders()
 					}
 					rs[code] = r
 				}
@@ -448,6 +454,68 @@ func genBundle(g *Gen, o BundleOpts) *Bundle {
 		root["responses"] = resps
 	}
 	return &Bundle{Root: root, Aux: aux, Feat: g.feat, MustFail: mustFail, Plus: plusWhat}
+}
+
+// simpleItems: a simple-schema items object (parameters, headers), possibly nested, with patterns and enums so that the
+// analyzer's items / parameter / header indexes are populated in Flatten bundles too.
+func (b *bgen) simpleItems(depth int) M {
+	g := b.Gen
+	it := M{"type": "string"}
+	if depth > 0 && g.p(0.35) {
+		it = M{"type": "array", "items": b.simpleItems(depth - 1)}
+		g.hit("simple:nested-items")
+		return it
+	}
+	if g.p(0.6) {
+		it["pattern"] = g.pick([]string{"^[a-z]+$", "x/y", "a~b"})
+		g.hit("simple:items-pattern")
+	}
+	if g.p(0.4) {
+		it["enum"] = []any{"a", "b"}
+		g.hit("simple:items-enum")
+	}
+	return it
+}
+
+// simpleParam: a non-body parameter: a plain one, one with pattern / enum, or an array with (nested) items.
+func (b *bgen) simpleParam(name string) M {
+	g := b.Gen
+	p := M{"name": name, "in": g.pick([]string{"query", "header", "formData"}), "type": "integer"}
+	switch g.n(4) {
+	case 0:
+		p["type"] = "string"
+		p["pattern"] = "^[0-9]+$"
+		if g.p(0.5) {
+			p["enum"] = []any{"1", "2"}
+		}
+		g.hit("simple:param-pattern")
+	case 1:
+		p["type"] = "array"
+		p["items"] = b.simpleItems(2)
+		g.hit("simple:param-items")
+	}
+	return p
+}
+
+// simpleHeaders: response headers with patterns, enums and (nested) items.
+func (b *bgen) simpleHeaders() M {
+	g := b.Gen
+	hs := M{}
+	for i, n := 0, 1+g.n(2); i < n; i++ {
+		h := M{"type": "string"}
+		switch g.n(3) {
+		case 0:
+			h["pattern"] = "^h+$"
+			if g.p(0.5) {
+				h["enum"] = []any{"h", "hh"}
+			}
+		case 1:
+			h = M{"type": "array", "items": b.simpleItems(2)}
+		}
+		hs[g.pick([]string{"X-Rate", "X-Next", "X Odd"})+fmt.Sprint(i)] = h
+	}
+	g.hit("simple:headers")
+	return hs
 }
 
 // injectScenario plants an interplay shape that W allows but that independent random choices rarely produce together.
@@ -617,6 +685,66 @@ func (b *bgen) injectScenario(name string, rootDefs, paths M, aux map[string]M, 
 		}
 		paths["/scn/clash"] = M{"get": resp(M{"$ref": "#/definitions/" + jsonPtrEscape(holder)}), "put": resp(M{"$ref": "#/definitions/" + jsonPtrEscape(clash)})}
 		g.hit("scenario:generated-name-clash")
+	case "case-twins":
+		// an auxiliary document with two $ref-free definitions whose names differ by letter case only, both referred to from
+		// the root: the two imports compete for one generated name (the order of import must not depend on map order)
+		if len(b.auxPaths) == 0 {
+			return
+		}
+		ap := b.auxPaths[0]
+		lo := g.pick([]string{"item", "line item", "geo/point", "t~ag"})
+		up := strings.ToUpper(lo[:1]) + lo[1:]
+		aux[ap]["definitions"].(M)[lo] = M{"type": "object", "properties": M{"lower": M{"type": "string"}}}
+		aux[ap]["definitions"].(M)[up] = M{"type": "object", "properties": M{"upper": M{"type": "integer"}}}
+		refTo := func(n string) M {
+			return M{"$ref": relRef("", ap) + "#/definitions/" + urlFragEscape(jsonPtrEscape(n))}
+		}
+		paths["/scn/twins"] = M{"get": resp(refTo(lo)), "put": resp(refTo(up))}
+		if g.p(0.5) {
+			paths["/scn/twins2"] = M{"get": resp(M{"type": "array", "items": refTo(up)}), "post": resp(M{"type": "object", "additionalProperties": refTo(lo)})}
+		}
+		g.hit("scenario:case-twins")
+	case "digit-siblings":
+		// an imported $ref-free definition that collides with a root definition and is referred to from sibling properties
+		// (or allOf members) whose names are numerals, with and without leading zeros
+		if len(b.auxPaths) == 0 || len(b.rootDefs) == 0 {
+			return
+		}
+		ap := b.auxPaths[0]
+		rn := b.rootDefs[g.n(len(b.rootDefs))]
+		aux[ap]["definitions"].(M)[rn] = b.refFreeSchema(1)
+		auxRef := M{"$ref": relRef("", ap) + "#/definitions/" + urlFragEscape(jsonPtrEscape(rn))}
+		props := M{}
+		for _, n := range [][]string{{"7", "07"}, {"2", "10"}, {"1", "01", "001"}}[g.n(3)] {
+			props[n] = auxRef
+		}
+		holder := "holderD" + fmt.Sprint(g.n(3))
+		rootDefs[holder] = M{"type": "object", "properties": props}
+		paths["/scn/digits"] = M{"get": resp(M{"$ref": "#/definitions/" + jsonPtrEscape(holder)})}
+		g.hit("scenario:digit-siblings")
+	case "odd-status":
+		// responses under legal status codes the net/http table has no text for, with inline complex schemas
+		codes := []string{"299", "499", "520", "306", "420"}
+		rs := M{}
+		for i, n := 0, 1+g.n(2); i < n; i++ {
+			var sch M
+			switch g.n(3) {
+			case 0:
+				sch = M{"type": "object", "properties": M{"p": M{"type": "string"}, "inner": M{"type": "object", "properties": M{"q": M{"type": "integer"}}}}}
+			case 1:
+				sch = M{"type": "array", "items": []any{M{"type": "string"}, M{"type": "integer"}}}
+			default:
+				sch = M{"allOf": []any{M{"type": "object", "properties": M{"z": M{"type": "string"}}}}}
+			}
+			rs[codes[g.n(len(codes))]] = M{"description": "odd", "schema": sch}
+		}
+		op := M{"responses": rs}
+		if g.p(0.7) {
+			b.scnOps++
+			op["operationId"] = fmt.Sprintf("scenarioOdd%d", b.scnOps)
+		}
+		paths["/scn/odd"] = M{g.pick(allMethods): op}
+		g.hit("scenario:odd-status")
 	case "ref-siblings":
 		// a $ref with schema-bearing siblings (kept by the loader): the only $ref to a definition sits under such a sibling
 		tgt, only := g.pick([]string{"tagS", "tag s", "t/s"}), g.pick([]string{"extraOnly", "extra only", "e~x"})
@@ -752,6 +880,11 @@ func (b *bgen) injectPlus(rootDefs, paths M, aux map[string]M) (mustFail bool, w
 			r := g.pick([]string{"#/definitions/plusMissing", "aux/missing.json#/definitions/x", "#/definitions/plusMissing/properties/p"})
 			if len(b.auxPaths) > 0 && g.p(0.4) {
 				r = b.auxPaths[0] + "#/definitions/plusMissing"
+			} else if g.p(0.3) {
+				// a name that exists only with another letter case
+				rootDefs["PlusCased"] = M{"type": "object", "properties": M{"c": M{"type": "string"}}}
+				addPath(M{"$ref": "#/definitions/PlusCased"})
+				r = g.pick([]string{"#/definitions/plusCased", "#/definitions/PLUSCASED"})
 			}
 			addPath(M{"$ref": r})
 			mustFail = true
